@@ -35,6 +35,9 @@ type connCtx struct {
 	ServerLog *tls.ServerHandshake
 	SrvALPN   string
 	PlainOnly bool // failed (man-in-the-middle) handshake: compare the plaintext flights only
+	// what the client verifies the server certificates against (for the Validation part of the log)
+	Roots      [][]byte // DER of the client's trust anchors
+	VerifyName string   // the client's Config.ServerName ("" = none)
 }
 
 // prevConn is what a resumed connection inherits from the one that created the session.
@@ -47,6 +50,7 @@ type tally struct {
 	evals    int64
 	outcomes map[string]int64
 	finds    []finding
+	master   []byte // the reference master secret check settled on (<= TLS 1.2)
 }
 
 func (t *tally) out(class string) { t.outcomes[class]++ }
@@ -216,18 +220,24 @@ func (t *tally) checkClientHello(l *tls.ClientHello, h *wClientHello) {
 	t.cmpBoolIff(P, "ticket", l.TicketSupported, hasTk)
 	rn, hasRn := findExt(h.Exts, extRenego)
 	rnData, _ := decVec8(rn.Data)
-	t.cmpBoolImplies(P, "secure_renegotiation", l.SecureRenegotiation, hasRn && len(rnData) > 0)
+	// tls_handshake.go documents this flag as "the extension is present AND carries a non-empty
+	// renegotiated_connection" (MakeLog: secureRenegotiationSupported && len(secureRenegotiation) > 0)
+	t.cmpBoolIff(P, "secure_renegotiation", l.SecureRenegotiation, hasRn && len(rnData) > 0)
 	_, hasHB := findExt(h.Exts, extHeartbeat)
-	t.cmpBoolImplies(P, "heartbeat", l.HeartbeatSupported, hasHB)
-	er, _ := findExt(h.Exts, extExtRandom)
-	if len(l.ExtendedRandom) > 0 {
-		t.evals++
-		if !bytes.HasSuffix(er.Data, l.ExtendedRandom) || len(er.Data) == 0 {
-			t.fail(P+" log: extended_random not on the wire", map[string]any{"logged": hx(l.ExtendedRandom), "wire": hx(er.Data)})
+	t.cmpBoolIff(P, "heartbeat", l.HeartbeatSupported, hasHB)
+	if er, hasER := findExt(h.Exts, extExtRandom); hasER {
+		// draft-rescorla-tls-extended-random: opaque extended_random_value<0..2^16-1>
+		if v, ok := decVec16(er.Data); ok {
+			// omitted from the JSON when empty: an unpopulated value is tolerated, a populated one must be the wire value
+			t.cmpBytes(P, "extended_random", l.ExtendedRandom, v, false)
+		} else {
+			t.out("harness:extended-random-unparsed")
 		}
+	} else {
+		t.cmpBytes(P, "extended_random", l.ExtendedRandom, nil, true)
 	}
 	_, hasEMS := findExt(h.Exts, extEMS)
-	t.cmpBoolImplies(P, "extended_master_secret", l.ExtendedMasterSecret, hasEMS)
+	t.cmpBoolIff(P, "extended_master_secret", l.ExtendedMasterSecret, hasEMS)
 	sni, hasSNI := findExt(h.Exts, extSNI)
 	name, _ := decSNI(sni.Data)
 	if !hasSNI {
@@ -236,6 +246,8 @@ func (t *tally) checkClientHello(l *tls.ClientHello, h *wClientHello) {
 	t.cmpBytes(P, "server_name", []byte(l.ServerName), []byte(name), false)
 	_, hasSCT := findExt(h.Exts, extSCT)
 	t.cmpBoolIff(P, "scts", l.Scts, hasSCT)
+	// sct_enabled is not a wire field: it mirrors Config.SignedCertificateTimestampExt (handshake_client.go sets
+	// clientHelloMsg.sctEnabled from the config; the extension itself is logged in "scts"). One-way only.
 	t.cmpBoolImplies(P, "sct_enabled", l.SctEnabled, hasSCT)
 
 	g, _ := findExt(h.Exts, extGroups)
@@ -254,7 +266,8 @@ func (t *tally) checkClientHello(l *tls.ClientHello, h *wClientHello) {
 
 	if l.SessionTicket != nil {
 		t.cmpInt(P, "session_ticket.length", int64(l.SessionTicket.Length), int64(len(tk.Data)))
-		t.cmpBytes(P, "session_ticket.value", l.SessionTicket.Value, tk.Data, false)
+		// "logged byte strings are complete": a ticket logged with its length carries its bytes
+		t.cmpBytes(P, "session_ticket.value", l.SessionTicket.Value, tk.Data, true)
 		t.cmpInt(P, "session_ticket.lifetime_hint", int64(l.SessionTicket.LifetimeHint), 0)
 	} else if len(tk.Data) > 0 {
 		t.out("unpopulated:ClientHello.session_ticket")
@@ -329,9 +342,10 @@ func (t *tally) checkServerHello(l *tls.ServerHello, h *wServerHello, eeALPN str
 	t.cmpBoolIff(P, "ticket", l.TicketSupported, has)
 	rn, hasRn := findExt(h.Exts, extRenego)
 	rnData, _ := decVec8(rn.Data)
-	t.cmpBoolImplies(P, "secure_renegotiation", l.SecureRenegotiation, hasRn && len(rnData) > 0)
+	// documented in tls_handshake.go as "present with a non-empty renegotiated_connection" (see ClientHello)
+	t.cmpBoolIff(P, "secure_renegotiation", l.SecureRenegotiation, hasRn && len(rnData) > 0)
 	_, has = findExt(h.Exts, extHeartbeat)
-	t.cmpBoolImplies(P, "heartbeat", l.HeartbeatSupported, has)
+	t.cmpBoolIff(P, "heartbeat", l.HeartbeatSupported, has)
 	_, has = findExt(h.Exts, extEMS)
 	t.cmpBoolIff(P, "extended_master_secret", l.ExtendedMasterSecret, has)
 	if len(l.ExtendedRandom) > 0 {
@@ -511,6 +525,14 @@ func (t *tally) checkSKX(c *connCtx) {
 		}
 		if valid {
 			t.out("skx-signature-verified:" + scheme)
+		} else {
+			t.out("skx-signature-invalid:" + scheme)
+		}
+		// signature_error is the verification error: present exactly when the signature on the wire does not verify
+		t.evals++
+		if (l.SignatureError != "") != !valid {
+			t.fail(P+" log: signature_error presence differs from an independent verification", map[string]any{
+				"logged_error": l.SignatureError, "reference_valid": valid, "scheme": scheme})
 		}
 	}
 	if s.HasAlg {
@@ -662,7 +684,10 @@ func check(c *connCtx) *tally {
 	} else {
 		t.out("unpopulated:client_hello")
 	}
-	if l.ServerHello != nil {
+	if l.ServerHello != nil && len(w.SHs) == 0 {
+		t.evals++
+		t.fail("ServerHello log: populated but no ServerHello on the wire", nil)
+	} else if l.ServerHello != nil {
 		// The log may hold the HelloRetryRequest or the ServerHello: both are ServerHello messages on the wire.
 		best := (*tally)(nil)
 		for _, sh := range w.SHs {
@@ -683,11 +708,17 @@ func check(c *connCtx) *tally {
 		for k, v := range best.outcomes {
 			t.outcomes[k] += v
 		}
-	} else {
+	} else if len(w.SHs) > 0 {
 		t.out("unpopulated:server_hello")
 	}
 	if l.ServerCertificates != nil {
-		t.checkCertificates(l.ServerCertificates, w.Certs)
+		if w.TLS13 && !w.HasCrt {
+			// the Certificate message of a TLS 1.3 flight the harness could not open
+			t.out("harness:tls13-certificate-not-readable")
+		} else {
+			t.checkCertificates(l.ServerCertificates, w.Certs)
+			t.checkValidation(c)
+		}
 	} else if len(w.Certs) > 0 {
 		t.out("unpopulated:server_certificates")
 	}
@@ -702,12 +733,36 @@ func check(c *connCtx) *tally {
 		t.out("unpopulated:client_key_exchange")
 	}
 
+	var master, refCF, refSF []byte
 	if c.PlainOnly {
 		t.out("plaintext-parts-only")
 	} else if !w.TLS13 {
-		master := c.masterOf(t)
+		klMaster := c.masterOf(t)
+		pre, indep, okI := c.independentSecrets(t)
+		master = klMaster
+		if okI {
+			// The connection worked (both Finished were accepted), so the master secret in use is the one both key
+			// logs name. It must be the RFC 5246 8.1 derivation of the independently recomputed pre-master secret,
+			// unless extended_master_secret (RFC 7627) was negotiated, which changes the derivation.
+			_, ems := findExt(w.SH.Exts, extEMS)
+			t.evals++
+			switch {
+			case klMaster == nil || bytes.Equal(klMaster, indep):
+				master = indep
+				t.out("master-secret-reference:independent")
+			case ems:
+				t.out("master-secret-reference:keylog (extended_master_secret negotiated)")
+			default:
+				t.fail("harness: independently recomputed master secret differs from both key logs", map[string]any{"kx": c.Suite.Kx})
+			}
+		} else if w.Resumed {
+			t.out("master-secret-reference:of the session's first connection")
+		} else {
+			t.out("master-secret-reference:keylog")
+		}
 		if master != nil {
 			cf, sf := refFinished(w, c.Suite.SHA384, master)
+			refCF, refSF = cf, sf
 			if l.ClientFinished != nil {
 				t.cmpBytes("ClientFinished", "verify_data", l.ClientFinished.VerifyData, cf, true)
 				if c.ServerLog != nil && c.ServerLog.ClientFinished != nil && bytes.Equal(c.ServerLog.ClientFinished.VerifyData, cf) {
@@ -736,14 +791,8 @@ func check(c *connCtx) *tally {
 					if !bytes.Equal(prf(w.Vers, c.Suite.SHA384, pm.Value, "master secret", seed, 48), master) {
 						t.fail("KeyMaterial log: pre_master_secret does not derive the master secret in use", nil)
 					}
-					if c.Suite.Kx == "RSA" && c.RSAPriv != nil && w.CKX != nil {
-						r := rd{b: w.CKX.Body}
-						ct := r.vec16()
-						if pt, err := stdrsa.DecryptPKCS1v15(nil, c.RSAPriv, ct); err == nil {
-							t.cmpBytes("KeyMaterial", "pre_master_secret (RSA, decrypted from the wire)", pm.Value, pt, true)
-						} else {
-							t.out("harness:rsa-ckx-undecryptable")
-						}
+					if okI {
+						t.cmpBytes("KeyMaterial", "pre_master_secret (recomputed from the wire and the server's key)", pm.Value, pre, true)
 					}
 				} else if !w.Resumed {
 					t.out("unpopulated:key_material.pre_master_secret")
@@ -773,26 +822,36 @@ func check(c *connCtx) *tally {
 			t.out("unpopulated:session_ticket")
 		}
 	} else {
-		// TLS 1.3: the client log carries no Finished / key material; if it ever does, it is not checked here.
-		if l.ClientFinished != nil || l.ServerFinished != nil || l.KeyMaterial != nil || l.SessionTicket != nil {
-			t.out("tls13-extra-log-parts-not-compared")
+		// TLS 1.3: the Finished messages travel in the protected flights the harness opened with the handshake
+		// traffic secrets: whatever the log offers is compared with them.
+		if l.ServerFinished != nil {
+			if w.Fin13S != nil {
+				t.cmpBytes("ServerFinished", "verify_data (TLS 1.3, protected flight opened)", l.ServerFinished.VerifyData, w.Fin13S, true)
+				refSF = w.Fin13S
+			} else {
+				t.out("harness:tls13-server-finished-not-readable")
+			}
+		}
+		if l.ClientFinished != nil {
+			if w.Fin13C != nil {
+				t.cmpBytes("ClientFinished", "verify_data (TLS 1.3, protected flight opened)", l.ClientFinished.VerifyData, w.Fin13C, true)
+				refCF = w.Fin13C
+			} else {
+				t.out("harness:tls13-client-finished-not-readable")
+			}
+		}
+		if l.KeyMaterial != nil || l.SessionTicket != nil {
+			// TLS 1.3 has no 48-byte master secret in the key log and its tickets follow the handshake under the
+			// application traffic keys: this check has no reference for them (counted; the run is marked incomplete).
+			t.out("tls13-key-material-or-ticket-logged:no-reference")
+		}
+		if l.ServerFinished == nil && l.ClientFinished == nil && l.KeyMaterial == nil && l.SessionTicket == nil {
+			t.out("tls13-log-offers-no-finished-or-key-material")
 		}
 	}
-	if l.Alert != nil {
-		t.out("alert-logged")
-	}
-
-	// JSON encoding must succeed.
-	t.evals++
-	blob, err := json.Marshal(l)
-	if err != nil {
-		t.fail("json.Marshal(handshake log) fails", map[string]any{"error": err.Error()})
-	} else {
-		var generic map[string]any
-		if err := json.Unmarshal(blob, &generic); err != nil {
-			t.fail("json.Marshal(handshake log) is not valid JSON", map[string]any{"error": err.Error()})
-		}
-	}
+	t.checkAlert(c)
+	t.checkJSON(c, master, refCF, refSF)
+	t.master = master
 	return t
 }
 
